@@ -55,15 +55,44 @@ def check(run: Run) -> None:
             n_stores += 1
             f2 = ctx.analysis(fi)
             t = strip_sites(f2.term_of(tgt))
+            # the store may sit in a private helper QMetaData hands its pieces to: read it with the actual arguments
+            bind = {}
+            actual_ast = {}
+            in_q = fi is q
+            if fi is not q:
+                from ..lib import call_sites_of, unit
+                from ..terms import subst
+
+                sites = [(c_, call, skip) for c_, call, skip in call_sites_of(m, fi) if c_ is q]
+                if any(f_ is fi for f_ in unit(m, q)) and len(sites) == 1 and len(call_sites_of(m, fi)) == 1:
+                    _c, call, skip = sites[0]
+                    for p_, a_ in zip(fi.pos_params[skip:], call.args):
+                        bind[("param", p_)] = strip_sites(fa.term_of(a_))
+                        actual_ast[p_] = a_
+                    for k_ in call.keywords:
+                        if k_.arg is not None:
+                            bind[("param", k_.arg)] = strip_sites(fa.term_of(k_.value))
+                            actual_ast[k_.arg] = k_.value
+                    if fi.pos_params and skip:
+                        bind[("param", fi.pos_params[0])] = selfp
+                    t = subst(t, bind)
+                    in_q = True
             base = t[1] if t[0] == "upd" else t
-            fresh_copy = base == ("app", ("global", "copy.copy"), (cur,), ()) and fi is q
+            fresh_copy = base == ("app", ("global", "copy.copy"), (cur,), ()) and in_q
             run.check(fresh_copy, "C16.R1", fi, n, "_q_metadata stored on copy.copy(self._q_ast)", f"_q_metadata is attached to {show(t)[:100]}: " + ("the node is shared with the parent stream and its other children, which now see this metadata" if cur in unphi_terms(base) or base == cur else "not a fresh shallow copy of the stream's current top node"), "copy.copy(self.query_ast)", show(t))
-            if fi is q:
+            if in_q:
                 v = strip_sites(f2.term_of(val))
+                if bind:
+                    v = subst(v, bind)
                 dep_old = contains(v, lambda s: s == ("attr", cur, ATTR))
                 run.check(dep_old, "C16.R2", fi, n, "stored dictionary depends on the replaced node's _q_metadata", "the dictionary stored on the copied node is built from the new keys only: metadata carried by the node it replaces (set by the preceding QMetaData call) is dropped", "{**getattr(base_ast, '_q_metadata', {}), **q_metadata}", show(v))
                 owners_ = _metadata_loops(m, ctx, q, mdp)
-                dep_new = _depends_on_loop_store(q, fa, val, owners_[0][0] if len(owners_) == 1 else None)
+                lo_ = owners_[0][0] if len(owners_) == 1 else None
+                if fi is q:
+                    dep_new = _depends_on_loop_store(q, fa, val, lo_)
+                else:
+                    # in the helper: the value mentions a parameter whose actual argument, in QMetaData, holds the new keys
+                    dep_new = any(isinstance(x, ast.Name) and x.id in actual_ast and _depends_on_loop_store(q, fa, actual_ast[x.id], lo_) for x in ast.walk(val))
                 run.check(dep_new, "C16.R2", fi, n, "stored dictionary contains the new keys", "the stored dictionary does not include the keys being set")
     run.floor("C16.R1", n_stores, 1, "_q_metadata stores")
 
